@@ -3,7 +3,13 @@
 //
 // Protocol: one request per stdin line:  x<hex(utf8 input)> [x<hex(utf8 device path)>]
 // One reply line per request: space separated key=hex(value) pairs.
-use lipe_find_parser::{compile, parse};
+#![allow(deprecated)]
+use lipe_find_parser::ast::{
+    Action, Expression as Exp, FormatElement, FormatField, FormatSpecial, GlobalOption, Operator as Ope,
+    PositionalOption,
+};
+use lipe_find_parser::{compile, parse, RunOptions};
+use std::rc::Rc;
 use std::io::{BufRead, Write};
 use std::panic::{catch_unwind, AssertUnwindSafe};
 use std::time::{SystemTime, UNIX_EPOCH};
@@ -34,6 +40,200 @@ fn now() -> u64 {
     SystemTime::now().duration_since(UNIX_EPOCH).unwrap().as_secs()
 }
 
+// ---------------------------------------------------------------------------------------------
+// Tree requests:  T x<hex(s-expression)> [x<hex(device path)>]
+//   (and X Y) (or X Y) (list X Y) (not X) (prec X)      operator nodes
+//   (s "find syntax")                                    the tree parse() returns for that text
+//   (global-depth) (global-threads N) (global-maxdepth N) (global-mindepth N) (positional) (defaultprint)
+//   (printf E...) (fprintf "file" E...)                  E = (lit "text") | (field Name ['c' | "s"]) | (special Name [N])
+#[derive(Debug, Clone)]
+enum Sx {
+    Atom(String),
+    Str(String),
+    List(Vec<Sx>),
+}
+
+fn sx_parse(src: &[char], i: &mut usize) -> Result<Sx, String> {
+    while *i < src.len() && src[*i].is_whitespace() {
+        *i += 1;
+    }
+    if *i >= src.len() {
+        return Err("eof".into());
+    }
+    match src[*i] {
+        '(' => {
+            *i += 1;
+            let mut v = vec![];
+            loop {
+                while *i < src.len() && src[*i].is_whitespace() {
+                    *i += 1;
+                }
+                if *i >= src.len() {
+                    return Err("unclosed".into());
+                }
+                if src[*i] == ')' {
+                    *i += 1;
+                    return Ok(Sx::List(v));
+                }
+                v.push(sx_parse(src, i)?);
+            }
+        }
+        '"' => {
+            *i += 1;
+            let mut out = String::new();
+            while *i < src.len() && src[*i] != '"' {
+                if src[*i] == '\\' && *i + 1 < src.len() {
+                    *i += 1;
+                }
+                out.push(src[*i]);
+                *i += 1;
+            }
+            *i += 1;
+            Ok(Sx::Str(out))
+        }
+        _ => {
+            let st = *i;
+            while *i < src.len() && !src[*i].is_whitespace() && src[*i] != '(' && src[*i] != ')' {
+                *i += 1;
+            }
+            Ok(Sx::Atom(src[st..*i].iter().collect()))
+        }
+    }
+}
+
+fn atom(s: &Sx) -> Result<&str, String> {
+    match s {
+        Sx::Atom(a) => Ok(a.as_str()),
+        _ => Err(format!("atom expected: {:?}", s)),
+    }
+}
+
+fn string(s: &Sx) -> Result<String, String> {
+    match s {
+        Sx::Str(a) => Ok(a.clone()),
+        _ => Err(format!("string expected: {:?}", s)),
+    }
+}
+
+fn field(name: &str, arg: Option<&Sx>) -> Result<FormatField, String> {
+    use FormatField::*;
+    let ch = || -> Result<char, String> { string(arg.ok_or("arg")?)?.chars().next().ok_or("char".to_string()) };
+    Ok(match name {
+        "Percent" => Percent, "Access" => Access, "AccessFormatted" => AccessFormatted(ch()?),
+        "DiskSizeBlocks" => DiskSizeBlocks, "Change" => Change, "ChangeFormatted" => ChangeFormatted(ch()?),
+        "Depth" => Depth, "DeviceNumber" => DeviceNumber, "Basename" => Basename, "FsType" => FsType,
+        "Group" => Group, "GroupId" => GroupId, "Parents" => Parents, "StartingPoint" => StartingPoint,
+        "InodeDecimal" => InodeDecimal, "DiskSizeKilos" => DiskSizeKilos, "SymbolicTarget" => SymbolicTarget,
+        "PermissionsOctal" => PermissionsOctal, "PermissionsSymbolic" => PermissionsSymbolic,
+        "Hardlinks" => Hardlinks, "Name" => Name, "NameWithoutStartingPoint" => NameWithoutStartingPoint,
+        "DiskSizeBytes" => DiskSizeBytes, "Sparseness" => Sparseness, "Modify" => Modify,
+        "ModifyFormatted" => ModifyFormatted(ch()?), "User" => User, "UserId" => UserId, "Type" => Type,
+        "TypeSymlink" => TypeSymlink, "SecurityContext" => SecurityContext, "FileId" => FileId,
+        "ProjectId" => ProjectId, "MirrorCount" => MirrorCount, "StripeCount" => StripeCount,
+        "StripeSize" => StripeSize, "XAttr" => XAttr(string(arg.ok_or("arg")?)?),
+        _ => return Err(format!("field {}", name)),
+    })
+}
+
+fn special(name: &str, arg: Option<&Sx>) -> Result<FormatSpecial, String> {
+    use FormatSpecial::*;
+    Ok(match name {
+        "Alarm" => Alarm, "Backspace" => Backspace, "Clear" => Clear, "Form" => Form, "Newline" => Newline,
+        "CarriageReturn" => CarriageReturn, "TabHorizontal" => TabHorizontal, "TabVertical" => TabVertical,
+        "Null" => Null, "Backslash" => Backslash,
+        "Ascii" => Ascii(atom(arg.ok_or("arg")?)?.parse::<u16>().map_err(|e| e.to_string())?),
+        _ => return Err(format!("special {}", name)),
+    })
+}
+
+fn elems(v: &[Sx]) -> Result<Vec<FormatElement>, String> {
+    let mut out = vec![];
+    for e in v {
+        if let Sx::List(l) = e {
+            match atom(&l[0])? {
+                "lit" => out.push(FormatElement::Literal(string(&l[1])?)),
+                "field" => out.push(FormatElement::Field(field(atom(&l[1])?, l.get(2))?)),
+                "special" => out.push(FormatElement::Special(special(atom(&l[1])?, l.get(2))?)),
+                x => return Err(format!("element {}", x)),
+            }
+        } else {
+            return Err("element list expected".into());
+        }
+    }
+    Ok(out)
+}
+
+fn build(s: &Sx) -> Result<Exp, String> {
+    let l = match s {
+        Sx::List(l) if !l.is_empty() => l,
+        _ => return Err(format!("list expected: {:?}", s)),
+    };
+    let op = |o: Ope| Exp::Operator(Rc::new(o));
+    Ok(match atom(&l[0])? {
+        "and" => op(Ope::And(build(&l[1])?, build(&l[2])?)),
+        "or" => op(Ope::Or(build(&l[1])?, build(&l[2])?)),
+        "list" => op(Ope::List(build(&l[1])?, build(&l[2])?)),
+        "not" => op(Ope::Not(build(&l[1])?)),
+        "prec" => op(Ope::Precedence(build(&l[1])?)),
+        "s" => {
+            let text = string(&l[1])?;
+            let r = catch_unwind(AssertUnwindSafe(|| parse(text.as_str())));
+            match r {
+                Ok(Ok((_, e))) => e,
+                Ok(Err(e)) => return Err(format!("leaf does not parse: {}", e)),
+                Err(_) => return Err("leaf parse panicked".into()),
+            }
+        }
+        "global-depth" => Exp::Global(GlobalOption::Depth),
+        "global-threads" => Exp::Global(GlobalOption::Threads(atom(&l[1])?.parse().map_err(|_| "num")?)),
+        "global-maxdepth" => Exp::Global(GlobalOption::MaxDepth(atom(&l[1])?.parse().map_err(|_| "num")?)),
+        "global-mindepth" => Exp::Global(GlobalOption::MinDepth(atom(&l[1])?.parse().map_err(|_| "num")?)),
+        "positional" => Exp::Positional(PositionalOption::XDev),
+        "defaultprint" => Exp::Action(Action::DefaultPrint),
+        "printf" => Exp::Action(Action::PrintFormatted(elems(&l[1..])?)),
+        "fprintf" => Exp::Action(Action::FilePrintFormatted(string(&l[1])?, elems(&l[2..])?)),
+        x => return Err(format!("node {}", x)),
+    })
+}
+
+fn compile_report(exp: &Exp, opts: &RunOptions, mdt: &str, kv: &mut Vec<(&'static str, String)>) {
+    let t0 = now();
+    let compiled = catch_unwind(AssertUnwindSafe(|| compile(exp, opts)));
+    let t1 = now();
+    kv.push(("t0", t0.to_string()));
+    kv.push(("t1", t1.to_string()));
+    match compiled {
+        Err(p) => {
+            kv.push(("compile", "panic".into()));
+            kv.push(("panic", payload(p)));
+        }
+        Ok(Err(e)) => {
+            kv.push(("compile", "err".into()));
+            kv.push(("cerr", e.to_string()));
+        }
+        Ok(Ok(c)) => {
+            kv.push(("compile", "ok".into()));
+            let s1 = catch_unwind(AssertUnwindSafe(|| c.scheme(mdt)));
+            match s1 {
+                Ok(s) => {
+                    let s2 = c.scheme(mdt);
+                    kv.push(("scheme", s.clone()));
+                    kv.push(("again", (s == s2).to_string()));
+                }
+                Err(p) => kv.push(("panic", payload(p))),
+            }
+            match c.io_map() {
+                None => kv.push(("iomap", "none".into())),
+                Some(m) => {
+                    let mut v: Vec<_> = m.into_iter().collect();
+                    v.sort_by_key(|(k, _)| *k);
+                    kv.push(("iomap", format!("{:?}", v)));
+                }
+            }
+        }
+    }
+}
+
 fn main() {
     std::panic::set_hook(Box::new(|_| {}));
     let stdin = std::io::stdin();
@@ -42,9 +242,37 @@ fn main() {
     for line in stdin.lock().lines() {
         let line = line.unwrap();
         let mut it = line.split_whitespace();
-        let input = unhex(it.next().unwrap_or("x"));
-        let mdt = it.next().map(unhex).unwrap_or(String::from("/"));
+        let mut first = it.next().unwrap_or("x");
         let mut kv: Vec<(&str, String)> = vec![];
+        if first == "T" {
+            let sx = unhex(it.next().unwrap_or("x"));
+            let mdt = it.next().map(unhex).unwrap_or(String::from("/"));
+            let chars: Vec<char> = sx.chars().collect();
+            let mut i = 0;
+            match sx_parse(&chars, &mut i).and_then(|s| build(&s)) {
+                Err(e) => kv.push(("build", e)),
+                Ok(exp) => {
+                    kv.push(("build", "ok".into()));
+                    kv.push(("tree", format!("{:?}", exp)));
+                    match catch_unwind(AssertUnwindSafe(|| (exp.action(), exp.complex_frames()))) {
+                        Ok((a, c)) => {
+                            kv.push(("action", a.to_string()));
+                            kv.push(("complex", c.to_string()));
+                        }
+                        Err(p) => kv.push(("panic", payload(p))),
+                    }
+                    compile_report(&exp, &RunOptions::default(), mdt.as_str(), &mut kv);
+                }
+            }
+            let reply: Vec<String> = kv.iter().map(|(k, v)| format!("{}={}", k, hex(v))).collect();
+            writeln!(out, "{}", reply.join(" ")).unwrap();
+            continue;
+        }
+        if first == "P" {
+            first = it.next().unwrap_or("x");
+        }
+        let input = unhex(first);
+        let mdt = it.next().map(unhex).unwrap_or(String::from("/"));
         let parsed = catch_unwind(AssertUnwindSafe(|| parse(input.as_str())));
         match parsed {
             Err(p) => {
@@ -63,41 +291,9 @@ fn main() {
                 kv.push(("parse", "ok".into()));
                 kv.push(("opts", format!("{:?}", opts)));
                 kv.push(("tree", format!("{:?}", exp)));
-                let t0 = now();
-                let compiled = catch_unwind(AssertUnwindSafe(|| compile(&exp, &opts)));
-                let t1 = now();
-                kv.push(("t0", t0.to_string()));
-                kv.push(("t1", t1.to_string()));
-                match compiled {
-                    Err(p) => {
-                        kv.push(("compile", "panic".into()));
-                        kv.push(("panic", payload(p)));
-                    }
-                    Ok(Err(e)) => {
-                        kv.push(("compile", "err".into()));
-                        kv.push(("cerr", e.to_string()));
-                    }
-                    Ok(Ok(c)) => {
-                        kv.push(("compile", "ok".into()));
-                        let s1 = catch_unwind(AssertUnwindSafe(|| c.scheme(mdt.as_str())));
-                        match s1 {
-                            Ok(s) => {
-                                let s2 = c.scheme(mdt.as_str());
-                                kv.push(("scheme", s.clone()));
-                                kv.push(("again", (s == s2).to_string()));
-                            }
-                            Err(p) => kv.push(("panic", payload(p))),
-                        }
-                        match c.io_map() {
-                            None => kv.push(("iomap", "none".into())),
-                            Some(m) => {
-                                let mut v: Vec<_> = m.into_iter().collect();
-                                v.sort_by_key(|(k, _)| *k);
-                                kv.push(("iomap", format!("{:?}", v)));
-                            }
-                        }
-                    }
-                }
+                kv.push(("action", exp.action().to_string()));
+                kv.push(("complex", exp.complex_frames().to_string()));
+                compile_report(&exp, &opts, mdt.as_str(), &mut kv);
             }
         }
         let reply: Vec<String> = kv.iter().map(|(k, v)| format!("{}={}", k, hex(v))).collect();
